@@ -170,10 +170,31 @@ def eval_case(ctx, cls, opt, n, keys, amps, types="complex", meta=None):
             where = "listed amplitude wrong"
         else:
             where = "non-zero amplitude on an unlisted basis state"
+        extra = {"err": err, "index": worst}
+        if cls == "PivotInitialize" and err < 1e-4:
+            extra.update(_pivot_dense_stage_diagnostic(definition, err))
         ctx.violation(f"{cls}: output differs from the dictionary by {err:.3g} at index {worst} ({where})",
-                      dict(case, err=err, index=worst))
+                      dict(case, **extra))
         return False
     return True
+
+
+def _pivot_dense_stage_diagnostic(definition, err):
+    """Classification of an already failed PivotInitialize case (not part of the verdict): the circuit is one dense
+    LowRankInitialize gate followed by X / CX / multi-controlled X gates, which only permute amplitudes.  If the
+    dense gate alone misses its own parameter vector by the same amount, the deviation comes from the dense stage
+    (qclib.unitary.unitary hands 4x4 blocks to Qiskit's two-qubit synthesis, which approximates to fidelity 1-1e-9)."""
+    try:
+        for inst in definition.data:
+            if inst.operation.name == "low_rank":
+                want = np.asarray(inst.operation.params, dtype=complex)
+                got = np.asarray(Statevector(inst.operation.definition).data)
+                dense_err = float(np.abs(got - want).max())
+                cause = "dense_stage" if abs(dense_err - err) < 1e-9 else "other"
+                return {"cause": cause, "dense_stage_err": dense_err}
+    except Exception:       # diagnostic only
+        pass
+    return {"cause": "unknown"}
 
 
 # ----------------------------------------------------------------------------------------------- generators
